@@ -115,7 +115,14 @@ let run () = iter_lines (fun line ->
            let k = List.length outs - 1 in
            List.iteri (fun i kd ->
              if i = k && kd <> "timeout" then report "SPEC:C14" (Printf.sprintf "document %d: the timed-out test is reported as %s" m.idx kd) line;
-             if i > k && kd <> "skipped" then report "SPEC:C14" (Printf.sprintf "document %d: a test after the timed-out one is reported as %s" m.idx kd) line) kinds
+             if i > k && kd <> "skipped" then report "SPEC:C14" (Printf.sprintf "document %d: a test after the timed-out one is reported as %s" m.idx kd) line;
+             (* C05 on the tests validated before the timeout *)
+             if i < k && i < List.length tcs then begin
+               let (tc : tcase) = List.nth tcs i and (r : rstep) = List.nth outs i in
+               let should_pass = (match r.status with Code c -> int_of_z c = (match tc.expected with Some e -> int_of_z e | None -> 0) && r.out_ok | _ -> false) in
+               if kd = "ok" && not should_pass then report "SPEC:C05" (Printf.sprintf "document %d: a test (before a timeout) that did not end in the expected exit code with the expected output is reported as succeeded" m.idx) line;
+               if kd <> "ok" && should_pass then report "SPEC:C05" (Printf.sprintf "document %d: a test (before a timeout) with expected exit code and output is reported as %s" m.idx kd) line
+             end) kinds
          | ExOk outs ->
            let rs = outs in
            if List.mem "skipped" kinds then report "SPEC:C15" (Printf.sprintf "document %d: a test is reported skipped although none ended in its skip code and none timed out" m.idx) line;
